@@ -3,10 +3,10 @@
 #   suite passes with the patch; demo fails with it and passes without it. Stores it under /verif/seeded/<PID>-<N>/.
 set -u
 PID=$1; N=$2
-SRC=/tmp/seed-out/$PID
+SRC=${SEED_SRC:-/tmp/seed-out}/$PID
 WT=/tmp/vs-$PID-$N
-OUT=/verif/seeded/$PID-$N
-LOG=/tmp/seed-out/verify-$PID-$N.log
+OUT=/verif/seeded/$PID-${SEED_OUTN:-$N}
+LOG=${SEED_SRC:-/tmp/seed-out}/verify-$PID-$N.log
 exec >"$LOG" 2>&1
 git -C /repo worktree add -q --detach "$WT" HEAD || exit 2
 cd "$WT"
@@ -29,6 +29,8 @@ cp "$SRC/patch$N.diff" "$OUT/patch.diff"; cp "$SRC/demo$N.rs" "$OUT/demo.rs"; cp
 python3 - "$PID" "$N" "$SUITE" "$WITH" "$WITHOUT" "$OUT" <<'PY'
 import json,sys
 pid,n,suite,w,wo,out=sys.argv[1:]
+import os
+n=os.environ.get("SEED_OUTN",n)
 json.dump({"property":pid,"seed":int(n),"needs":"see note.md","verified":{"suite_with_patch":suite.strip(),"demo_with_patch":w.strip(),"demo_without_patch":wo.strip(),
  "commands":["git apply patch.diff","cargo nextest run --workspace --no-fail-fast --offline","cargo test --offline --features tests-cfg --test seed_demo","git apply -R patch.diff","cargo test --offline --features tests-cfg --test seed_demo"]},
  "caught_by":[]},open(out+"/meta.json","w"),indent=1)
